@@ -1,7 +1,7 @@
 #!/bin/bash
 # Developer tool: run every claimed quick check in parallel and print one line each.
 cd /verif
-for p in C01 C02 C03 C04 C05 C07 C08 C09 C10 C11 C12 C13 C14 C15 C16 C17 C18 C19 C20; do
+for p in C01 C02 C03 C04 C05 C06 C07 C08 C09 C10 C11 C12 C13 C14 C15 C16 C17 C18 C19 C20; do
   ( out=$(NSSA_NO_EVIDENCE=${NSSA_NO_EVIDENCE-1} ./check $p 2>&1); rc=$?; echo "$p rc=$rc $(echo "$out" | grep -E '^(PASS|VIOLATION|ANALYSIS-ERROR)' | head -1 | cut -c1-300)"; if [ $rc -ne 0 ]; then echo "$out" | grep -E '^  ' | head -6 | cut -c1-400; fi ) &
 done
 wait
